@@ -250,9 +250,11 @@ def check_plan(sol, meta=None):
     flaws = {f["id"]: f for f in g}
     atoms = {a["id"]: a for a in sol.atoms}
     res_owner = {}
+    rho_of = {}
     for f in g:
         for r in f["resolvers"]:
             res_owner[r["id"]] = f
+            rho_of[r["id"]] = r["rho"]
     aflaw = {}
     for f in g:
         if f["data"].get("type") in ("fact", "goal"):
@@ -267,7 +269,15 @@ def check_plan(sol, meta=None):
         for r in act:
             for p in r["preconditions"]:
                 if p in flaws and flaws[p]["phi"] != "T":
-                    bad.append(f"resolver {r['data']} is applied but its precondition {flaws[p]['data']} is not in the plan")
+                    pf = flaws[p]
+                    if r["id"] not in pf["causes"]:
+                        # a causal link (unification -> target): the clause (not rho or phi) was posted
+                        bad.append(f"resolver {r['data']} is applied but the flaw it links to, {pf['data']}, is not in the plan")
+                    elif all(rho_of.get(c) == "T" for c in pf["causes"]):
+                        # a flaw is in the plan exactly when ALL the resolvers that caused it are applied (phi = conjunction)
+                        bad.append(f"every cause of flaw {pf['data']} is applied but the flaw is not in the plan")
+        if f["causes"] and f["phi"] == "T" and not all(rho_of.get(c) == "T" for c in f["causes"]):
+            bad.append(f"flaw {f['data']} is in the plan although one of the resolvers that caused it is not applied")
     support = {}     # atom id -> atoms it depends on
 
     def children(res):
